@@ -69,9 +69,19 @@ Qed.
 (* COM_FIELD_LIST: the same definition followed by the default-value suffix *)
 Theorem field_list_coldef_roundtrip cd dflt : coldef_wf cd ->
   dec_coldef (enc_coldef cd (Some dflt)) =
-  Some (cd, match dflt with None => uint_len 0 | Some v => uint_len (len v) ++ str_len v end).
+  Some (cd, match dflt with None => uint_len 0 | Some v => str_len v end).
 Proof.
   intros W. unfold enc_coldef. apply coldef_core. exact W.
+Qed.
+
+(* ... and what follows the definition is ONE length-encoded string holding the default value (none: the empty string) *)
+Theorem field_list_default_roundtrip dflt : match dflt with Some v => len v < 2 ^ 64 | None => True end ->
+  read_str_len (match dflt with None => uint_len 0 | Some v => str_len v end) =
+  Some (match dflt with None => [] | Some v => v end, []).
+Proof.
+  destruct dflt as [v|]; intros H.
+  - rewrite <- (app_nil_r (str_len v)). now apply str_len_roundtrip.
+  - vm_compute. reflexivity.
 Qed.
 
 Theorem colcount_roundtrip c n rest : optional_metadata c = false -> n < 2 ^ 64 ->
